@@ -1,5 +1,6 @@
 """Verification of one contract: explore paths of the real (transformed) function, discharge obligations."""
 import os
+import re
 import sys
 import time
 import random
@@ -192,7 +193,7 @@ def discharge(ob, alg, live, budget, tier):
     return done('undecided', 'z3+cvc5', detail='%s; ring: %s' % (last_info, ring_detail))
 
 
-def verify_contract(name, tier='quick', seed=0, repo=None):
+def verify_contract(name, tier='quick', seed=0, repo=None, known=()):
     """runs in a forked worker.  returns a JSON-able dict"""
     t_start = time.time()
     out = dict(contract=name, obligations=[], paths=0, errors=[], assumptions=[], functions=[], rewrites={},
@@ -265,7 +266,10 @@ def verify_contract(name, tier='quick', seed=0, repo=None):
             pc_txt = [T.show(l, 3) for l in p.pc][:12]
             for ob in p.obligations:
                 try:
-                    v = discharge(ob, alg, p.strict_live(), budget, tier)
+                    b = budget
+                    if any(re.search(k, ob.name) for k in known):
+                        b = min(budget, 3.0)     # clause listed as a known finding: no long solver runs on it
+                    v = discharge(ob, alg, p.strict_live(), b, tier)
                 except EngineError as e:
                     v = dict(status='error', backend='engine', s=0.0, detail=str(e)[:300])
                 rec = dict(name=ob.name, kind=ob.kind, path=pi, pc=pc_txt, goal=T.show(ob.goal, 4)[:200])
